@@ -384,3 +384,12 @@ Proof.
     replace (S (S n) - 1)%nat with (S (S n - 1)) by lia. cbn [nth].
     rewrite <- IH. destruct t as [|y t']; [cbn [length] in H; lia|]. reflexivity.
 Qed.
+
+Lemma firstn_split {A} n m (l : list A) : (n <= m)%nat ->
+  firstn m l = firstn n l ++ firstn (m - n) (skipn n l).
+Proof.
+  revert m l. induction n as [|n IH]; intros m l H.
+  - rewrite Nat.sub_0_r. reflexivity.
+  - destruct m as [|m]; [lia|]. destruct l as [|x t]; [cbn [skipn]; rewrite !firstn_nil; reflexivity|].
+    cbn [firstn skipn app Nat.sub]. rewrite (IH m t) by lia. reflexivity.
+Qed.
